@@ -60,9 +60,11 @@ class FnTarget:
         self.tail = None       # proof text put before the closing brace of the body (unit-returning fns only)
         self.closures = {}     # closure ordinal -> contract text for the k-th closure expression of the body
         self.params_to_let = False  # R8: destructuring closure parameters become a `let` at the head of the closure body
+        self.map_to_match = set()   # R13: headers of closures whose `RECV.map(|p| body)` is written out as a match
         self.omit = False
         self.canary = True
         self.opt_member = False  # `//@ fn? NAME`: the member may be absent from the impl/trait (skipped + recorded)
+        self.attrs = None      # `//@ fn-prefix`: attribute text put before this fn (e.g. #[verifier::when_used_as_spec(..)])
 
 
 class Block:
@@ -83,6 +85,7 @@ class Block:
         self.eta_found = {}
         self.head_all = None   # head text for every fn of the block (a fn's own `head` is put after it)
         self.trait_decl_only = False  # R12 (`//@ decl-only`): a trait is emitted as declarations only (default bodies dropped, specs kept)
+        self.params_to_let_all = False  # R8 for every fn of the block
         self.impl_to_generic = False  # R11: `x: &impl Trait` parameters become a named type parameter
         self.as_spec = None    # R10: emit the selected fn a second time as `pub closed spec fn <as_spec>` (its spec twin)
 
@@ -208,6 +211,8 @@ class Assembler:
                         raise UnitSyntax('line %d: %s outside a fn target' % (blk.vu_line, kind))
                     elif kind == 'spec':
                         tgt.spec = text
+                    elif kind == 'fn-prefix':
+                        tgt.attrs = text
                     elif kind == 'head':
                         tgt.head = text
                     elif kind == 'loop':
@@ -267,6 +272,9 @@ class Assembler:
                             # (before) or after its closing '}' (after).  Survives renamings and statement edits inside the loop that a `hint` anchor does not.
                             mo_ = re.match(r'loop-(head|tail|before|after)\s+(.*)$', d)
                             cur_field = ('loop-part', mo_.group(1), _loop_key(mo_.group(2).strip()))
+                        elif d == 'fn-prefix':
+                            # like `prefix`, but for the fn target addressed by the preceding `//@ fn NAME` of a whole impl/trait
+                            cur_field = ('fn-prefix',)
                         elif d.startswith('loop? ') or d.startswith('loop '):
                             # optional variants (`loop?`, `iter?`, `hint?`): the splice is skipped, not an anchor
                             # loss, when the loop/statement does not exist -- lets one unit assemble against two
@@ -282,6 +290,19 @@ class Assembler:
                                 blk.cur.loop_iters[key_] = opt[5:]
                         elif d == 'tail':
                             cur_field = ('tail',)
+                        elif d.startswith('closure-all? ') or d.startswith('closure-all '):
+                            # `closure-all /|params|/`: the contract text applies to EVERY closure of the body whose parameter
+                            # list reads like that (at least one, unless `closure-all?`); `$body` in the text stands for the
+                            # closure's own body expression ("returns what its body evaluates to": `-> (b: bool) ensures b == ($body)`).
+                            # Survives adding / removing / reordering such closures, unlike ordinals.
+                            opt_ = d.startswith('closure-all? ')
+                            key_ = _loop_key(d[13:] if opt_ else d[12:])
+                            if not isinstance(key_, str):
+                                raise UnitSyntax('line %d: closure-all needs /|params|/' % (i + 1))
+                            key_ = '*' + key_
+                            cur_field = ('closure', key_)
+                            if opt_:
+                                blk.cur.optional.add(('closure', key_))
                         elif d.startswith('closure? ') or d.startswith('closure '):
                             # a closure is addressed by its ordinal (`closure 2`) or by its parameter list written as it
                             # stands in the source (`closure /|global_names|/`, `closure /||/`); `closure?` = optional
@@ -315,7 +336,24 @@ class Assembler:
                         elif d == 'bare':
                             blk.bare = True
                         elif d == 'closure-params-to-let':
-                            blk.cur.params_to_let = True
+                            if blk.cur is None:
+                                # before any `//@ fn` of a whole impl/trait/mod: R8 for every fn of the block
+                                blk.params_to_let_all = True
+                            else:
+                                blk.cur.params_to_let = True
+                        elif d.startswith('result-map-to-match? ') or d.startswith('result-map-to-match '):
+                            # R13 (opt-in): `RECV.map(|p| body)` on a Result, addressed by the closure's parameter list
+                            # `/|p|/`, is written out by the definition of Result::map:
+                            # `match RECV { Ok(p) => Ok(body), Err(e) => Err(e) }` (Verus rejects a closure that captures
+                            # a mutable reference; on a receiver that is not a Result the match does not type-check -> UNDECIDED)
+                            # `result-map-to-match?`: skipped when the fn has no such `.map(` (another shape of the fn)
+                            opt_ = d.startswith('result-map-to-match? ')
+                            key_ = _loop_key(d.split(None, 1)[1])
+                            if not isinstance(key_, str):
+                                raise UnitSyntax('line %d: result-map-to-match needs /|params|/' % (i + 1))
+                            blk.cur.map_to_match.add(''.join(key_.split()))
+                            if opt_:
+                                blk.cur.optional.add(('map-to-match', ''.join(key_.split())))
                         elif d == 'no-canary':
                             blk.cur.canary = False
                         elif d.startswith('as-spec '):
@@ -329,6 +367,8 @@ class Assembler:
                             # R8: a tuple-struct/variant constructor passed as a function value, `f(Path::Ctor)`, is
                             # eta-expanded to `f(|eta_x| Path::Ctor(eta_x))` (Verus: "using a datatype constructor as a
                             # function value" is unsupported); same meaning
+                            # `//@ eta Path::f -> (r: T) ensures ..`: the text after the path is the contract of the closure
+                            # the expansion introduces: `f(|eta_x| -> (r: T) ensures .. { Path::f(eta_x) })`
                             blk.eta.append(d[4:].strip())
                         elif d == 'panics-diverge':
                             # R2b: partial-correctness reading of panic!/unreachable!/..: the macro call is replaced
@@ -476,6 +516,8 @@ class Assembler:
                     tgt.loops = {k_: _res(v_) for k_, v_ in tgt.loops.items()}
                     tgt.hints = [(a_, _res(b_), c_) for (a_, b_, c_) in tgt.hints]
                     self.rewrites.append('P %s fn %s: $N in the spliced text = parameter names %s' % (blk.relpath, fn_item.name, names))
+            if tgt and tgt.attrs:
+                edits.append((fn_item.kw_start, fn_item.kw_start, tgt.attrs.strip() + '\n'))
             if fn_item.st_body is None:
                 # trait method declaration without body: spec goes before ';'
                 if tgt and tgt.ret:
@@ -628,20 +670,75 @@ class Assembler:
                             ckey = closure_no
                         else:
                             for key_ in tgt.closures:
-                                if isinstance(key_, str) and ''.join(key_.split()) == chdr:
+                                if isinstance(key_, str) and key_.startswith('*') and ''.join(key_[1:].split()) == chdr:
+                                    ckey = key_
+                                elif isinstance(key_, str) and ''.join(key_.split()) == chdr:
                                     if key_ in seen_closures:
                                         raise AnchorLost('closure header %s occurs more than once in fn %s (%s)' % (key_, tgt.name, blk.relpath))
                                     ckey = key_
                     if ckey is not None:
                         seen_closures.add(ckey)
                         ctext = tgt.closures[ckey]
+                        if '$body' in ctext:
+                            # the closure's own body expression, verbatim (block body: the text between its braces)
+                            if st[pe + 1].text == '{':
+                                bq = match_close(st, pe + 1)
+                                btext = text[st[pe + 1].end:st[bq].start]
+                            else:
+                                bq = pe + 1
+                                bdepth = 0
+                                while True:
+                                    tb = st[bq]
+                                    if tb.kind == 'punct':
+                                        if tb.text in '([{':
+                                            bdepth += 1
+                                        elif tb.text in ')]}':
+                                            if bdepth == 0:
+                                                break
+                                            bdepth -= 1
+                                        elif tb.text in ',;' and bdepth == 0:
+                                            break
+                                    bq += 1
+                                btext = text[st[pe + 1].start:st[bq - 1].end]
+                            ctext = ctext.replace('$body', ' '.join(btext.split()))
+                    if tgt and chdr in tgt.map_to_match:
+                        # R13: RECV.map(|p| body)  ->  match RECV { Ok(p) => Ok(body), Err(e) => Err(e) }
+                        if not (st[k - 1].text == '(' and st[k - 2].text == 'map' and st[k - 3].text == '.'):
+                            raise AnchorLost('closure %s of fn %s is not the argument of `.map(`' % (chdr, tgt.name))
+                        kc = match_close(st, k - 1)
+                        r0 = k - 4
+                        rdepth = 0
+                        while r0 > a:
+                            tr = st[r0]
+                            if tr.kind == 'punct' and tr.text in ')]}':
+                                rdepth += 1
+                            elif tr.kind == 'punct' and tr.text in '([{':
+                                if rdepth == 0:
+                                    break
+                                rdepth -= 1
+                            elif rdepth == 0 and (tr.text in (';', ',', '=', '=>', 'return')):
+                                break
+                            r0 -= 1
+                        r0 += 1
+                        last = kc - 1
+                        if st[last].text == ',':
+                            last -= 1
+                        ptext = text[st[k].end:st[pe].start].strip()
+                        edits.append((st[r0].start, st[r0].start, 'match '))
+                        edits.append((st[k - 3].start, st[pe].end, ' { Ok(%s) => Ok(' % ptext))
+                        edits.append((st[last].end, st[kc].end, '), Err(__rbv_e) => Err(__rbv_e) }'))
+                        self.rewrites.append('R13 %s:%d closure #%d of fn %s: `RECV.map(|%s| body)` written out as `match RECV { Ok(%s) => Ok(body), Err(e) => Err(e) }` (definition of Result::map)'
+                                             % (blk.relpath, src.line_of(t.start), closure_no, tgt.name, ptext, ptext))
+                        tgt.map_to_match.discard(chdr)
+                        k = pe + 1
+                        continue
                     # R8 (opt-in, `//@ closure-params-to-let`): a closure parameter that is a destructuring pattern,
                     # `|S { f, .. }| body`, is moved into a `let` at the head of the body:
                     # `|__rbv_pN| { let S { f, .. } = __rbv_pN; body }` -- the definition of a pattern parameter
                     # (Rust reference, closure expressions: parameters are irrefutable patterns bound like `let`).
                     # Verus' front end only accepts plain variables as closure parameters.
                     lets = ''
-                    if tgt and tgt.params_to_let and pe > k + 1:
+                    if ((tgt and tgt.params_to_let) or blk.params_to_let_all) and pe > k + 1:
                         groups, cur, depth = [], [], 0
                         for q in range(k + 1, pe):
                             tq = st[q]
@@ -674,7 +771,7 @@ class Assembler:
                                 tmp = '__rbv_p%d_%d' % (closure_no, gi + 1)
                                 edits.append((st[pat[0]].start, st[pat[0]].end, tmp))
                                 self.rewrites.append('R8 %s:%d closure #%d of fn %s: wildcard parameter `_` named `%s`'
-                                                     % (blk.relpath, src.line_of(t.start), closure_no, tgt.name, tmp))
+                                                     % (blk.relpath, src.line_of(t.start), closure_no, fn_item.name, tmp))
                                 continue
                             simple = (len(pat) == 1 and st[pat[0]].kind == 'ident') or (
                                 len(pat) == 2 and st[pat[0]].text == 'mut' and st[pat[1]].kind == 'ident')
@@ -685,7 +782,7 @@ class Assembler:
                             edits.append((st[pat[0]].start, st[pat[-1]].end, tmp))
                             lets += ' let %s = %s;' % (ptext, tmp)
                             self.rewrites.append('R8 %s:%d closure #%d of fn %s: pattern parameter `%s` -> `%s` + `let %s = %s;` at the head of the body'
-                                                 % (blk.relpath, src.line_of(t.start), closure_no, tgt.name, ' '.join(ptext.split()), tmp, ' '.join(ptext.split()), tmp))
+                                                 % (blk.relpath, src.line_of(t.start), closure_no, fn_item.name, ' '.join(ptext.split()), tmp, ' '.join(ptext.split()), tmp))
                     if ctext is not None or lets:
                         if ctext is not None:
                             self.rewrites.append('C %s:%d closure #%d of fn %s: contract spliced between parameters and body%s'
@@ -757,16 +854,25 @@ class Assembler:
                     k = kc + 1
                     continue
                 k += 1
-            for ctor in blk.eta:
+            for ctor_full in blk.eta:
+                ctor, _, econtract = ctor_full.partition(' ')
+                econtract = econtract.strip()
                 found = 0
                 for mo in re.finditer(r'\(\s*(%s)\s*\)' % re.escape(ctor), text[st[a].end:st[b].start]):
                     s0 = st[a].end + mo.start(1)
                     e0 = st[a].end + mo.end(1)
-                    edits.append((s0, e0, '|eta_x| %s(eta_x)' % ctor))
+                    if econtract:
+                        edits.append((s0, e0, '|eta_x| %s { %s(eta_x) }' % (econtract, ctor)))
+                    else:
+                        edits.append((s0, e0, '|eta_x| %s(eta_x)' % ctor))
                     self.rewrites.append('R9 %s:%d constructor %s passed as a function value eta-expanded' % (blk.relpath, src.line_of(s0), ctor))
                     found += 1
-                blk.eta_found[ctor] = blk.eta_found.get(ctor, 0) + found
+                blk.eta_found[ctor_full] = blk.eta_found.get(ctor_full, 0) + found
             if tgt:
+                for n in tgt.map_to_match:
+                    if ('map-to-match', n) in tgt.optional:
+                        continue
+                    raise AnchorLost('fn %s has no `.map(%s ..)` in %s' % (tgt.name, n, blk.relpath))
                 for n in tgt.closures:
                     if n not in seen_closures and ('closure', n) not in tgt.optional:
                         raise AnchorLost('fn %s has no closure #%s (found %d) in %s' % (tgt.name, n, closure_no, blk.relpath))
@@ -862,7 +968,7 @@ class Assembler:
                         else:
                             k += 1
         for ctor in blk.eta:
-            if not blk.eta_found.get(ctor):
+            if not blk.eta_found.get(ctor) and not blk.decl_only:   # a declaration (include-external) has no body to rewrite
                 raise AnchorLost('no `(%s)` argument in %s of %s' % (ctor, item.name or item.kind, blk.relpath))
         # stable sort on the offsets only: edits at the same offset keep their insertion order
         # (ret-naming ')' before the spec text of a body-less trait method)
